@@ -15,6 +15,7 @@ import shutil
 import time
 
 from .. import core, build, hrun, sandbox
+from .. import shim as _shim
 from ..refmodel import users_model as um
 
 PROP = "C11"
@@ -279,7 +280,7 @@ def snapshot_tools(names=("nqshim.so", "ql-rec")):
     for attempt in range(20):
         ok = True
         for n in names:
-            shutil.copy(os.path.join(core.VERIF, "bin", n), os.path.join(d, n))
+            shutil.copy(_shim.tool(n), os.path.join(d, n))
             os.chmod(os.path.join(d, n), 0o755)
         rc, out, err = core.run_with_watchdog(["/bin/true"], 20, env={"LD_PRELOAD": os.path.join(d, "nqshim.so")})
         if rc != 0 or err:
